@@ -62,10 +62,15 @@ fn run_config(xi: &XInfo, y: &[f64], cfg: usize, label: &dyn Fn() -> String) -> 
                 return None;
             }
             if normalize {
-                // standardisation is defined only for non-constant columns; [X 1] full rank implies that
-                if !xi.a_full_rank || xi.z.is_none() {
+                // standardisation is defined only for non-constant columns
+                if xi.z.is_none() {
                     mc::count("skipped_ridge_norm_on_constant_column");
                     return None;
+                }
+                if !xi.a_full_rank {
+                    // non-constant columns with an affine dependency (e.g. x1 + x2 = 1): Z is rank deficient,
+                    // the ridge minimiser is still unique
+                    mc::count("ridge_norm_on_with_standardised_columns_dependent");
                 }
                 // the centred data keep fewer than 3 digits in this width: the standardised objective is not resolved
                 if xi.kappa_s * xi.w.eps() > 1e-3 {
@@ -254,20 +259,23 @@ impl Harness for C07 {
             jobs,
             budget_s: if t { 2700 } else { 40 },
             case_deadline_ms: 20_000,
+            // about a quarter of what the quick tier of seed 0 reaches (the thorough tier reaches 50x more)
             floors: vec![
-                ("ols_cases", 10_000),
-                ("ols_cases_f32", 3_000),
-                ("ols_square_system_zero_residual", 1_000),
-                ("ols_agreement_decisive", 10_000),
-                ("ridge_norm_on_cases", 10_000),
-                ("ridge_norm_off_cases", 10_000),
-                ("ridge_norm_off_with_constant_or_dependent_on_ones", 100),
-                ("ridge_cases_f32", 3_000),
-                ("ridge_agreement_decisive", 10_000),
-                ("nonzero_column_mean", 10_000),
-                ("structured_nonunit_column_scales", 10_000),
-                ("skipped_lattice_x_rank_deficient", 10),
-                ("nonzero_model", 10_000),
+                ("ols_cases", 250_000),
+                ("ols_cases_f32", 120_000),
+                ("ols_square_system_zero_residual", 40_000),
+                ("ols_agreement_decisive", 250_000),
+                ("ridge_norm_on_cases", 1_000_000),
+                ("ridge_norm_off_cases", 1_000_000),
+                ("ridge_norm_off_with_constant_or_dependent_on_ones", 100_000),
+                ("ridge_norm_on_with_standardised_columns_dependent", 10_000),
+                ("ridge_cases_f32", 1_000_000),
+                ("ridge_agreement_decisive", 2_000_000),
+                ("ridge_norm_on_large_mean_over_std", 10_000),
+                ("nonzero_column_mean", 2_500_000),
+                ("structured_nonunit_column_scales", 100_000),
+                ("skipped_lattice_x_rank_deficient", 50),
+                ("nonzero_model", 2_500_000),
             ],
             bounds: json!({
                 "lattice": if t {
@@ -278,7 +286,7 @@ impl Harness for C07 {
                 "structured": format!("designs {:?} x p=1..8 x n in {} x 6 column-scale patterns over {{1,1e-2,1e3}} x 6 column-mean patterns over {{0,5,100}} x 4 targets x f64/f32",
                     gen::DESIGNS, if t { "p+1..80 (every n)" } else { "{p+1,p+2,2p+1,3p+2,20,47,80}" }),
                 "configurations": "OLS {QR,SVD}; ridge alpha in {1e-3,0.1,1,100} x normalize {on,off} x {Cholesky,SVD}",
-                "domain": "OLS: [X 1] full column rank (exact on the lattice) and cond2([X 1]) <= 1e6 (f64) / 1e3 (f32); ridge: X full column rank and cond2(X) <= limit; normalize=on additionally needs non-constant columns",
+                "domain": "OLS: [X 1] full column rank (exact on the lattice) and cond2([X 1]) <= 1e6 (f64) / 1e3 (f32); ridge: X full column rank and cond2(X) <= limit; normalize=on additionally needs non-constant columns (an affine dependency between non-constant columns is allowed)",
                 "seed": format!("affine image of the lattice alphabet #{} of 8; rotation of the cyclic scale/mean patterns and indicator offset", seed % 8),
             }),
         }
